@@ -78,7 +78,7 @@ def balanced(P, a, b):
 def inc_line(name, r, depth):
     q = r.choice(["'", '"'])
     kw = r.choice(["include", "INCLUDE", "Include", "inCLude"])
-    return "  " * depth + r.choice(["", " "]) + kw + r.choice([" ", "  "]) + q + name + q
+    return "  " * depth + r.choice(["", " "]) + kw + r.choice([" ", "  ", " ", ""]) + q + name + q + r.choice(["", "", "   "])
 
 
 def build(P, payload):
